@@ -1,8 +1,11 @@
 package roverif
 
 import (
+	"context"
+
 	"errors"
 	"fmt"
+	"rosim/simcontext"
 	"strconv"
 	"strings"
 	"time"
@@ -104,6 +107,15 @@ func genC20(family string) func(g *Gen) *Scn {
 		}
 		if len(keys) > 1 && g.Bool(0.85) {
 			sc.SetInt("solo", keys[g.Intn(len(keys))]+1)
+		}
+		switch g.Intn(8) {
+		case 0:
+			sc.SetInt("slow", g.Range(w, 2*w+1))
+			sc.SetInt("slowat", g.Intn(3))
+		case 1:
+			sc.SetInt("twin", 1)
+		case 2:
+			sc.SetInt("ctxcancel", 1)
 		}
 		return sc
 	}
@@ -264,12 +276,57 @@ func runC20(e *Env) {
 		pipes = append(pipes, &pipe{name: "solo", spec: sp, items: its})
 	}
 	// both pipelines are subscribed at the same simulated instant, before the clock moves
-	for _, p := range pipes {
+	slow, slowAt := sc.Int("slow", 0), sc.Int("slowat", 0)
+	reduced := slow > 0 || sc.Int("ctxcancel", 0) == 1
+	slowTag := ""
+	if slow > 0 {
+		slowTag = ":slow-consumer"
+	}
+	for pi, p := range pipes {
 		p.src = e.NewSrc(p.spec)
 		p.rec = e.NewRec(p.name)
-		e.Subscribe(mkLimiter()(p.src.Obs()), p.rec.Observer(), nil)
+		if pi == 0 && slow > 0 {
+			// a consumer that takes longer than a window over one item: ordering and completeness must not
+			// depend on the consumer keeping up with the window clock
+			n := 0
+			p.rec.OnNextHook = func(r *Rec, v int) {
+				if n == slowAt {
+					simSleep(dur(slow))
+				}
+				n++
+			}
+		}
+		in := p.src.Obs()
+		if pi == 0 && sc.Int("ctxcancel", 0) == 1 {
+			// every item travels with its own cancellable context; the context of the first item is
+			// cancelled when the third one is emitted (a request-scoped context ending while the stream goes
+			// on): that is no event of the stream
+			var cancels []context.CancelFunc
+			in = ro.ContextMapI[int](func(ctx context.Context, i int64) context.Context {
+				c, cancel := simcontext.WithCancel(ctx)
+				cancels = append(cancels, cancel)
+				if i == 2 {
+					cancels[0]()
+				}
+				return c
+			})(in)
+		}
+		if pi == 0 && sc.Int("twin", 0) == 1 && native {
+			// two subscribers of the same rate-limited observable over a hot source: each of them gets the
+			// behaviour a single subscriber gets
+			subject := ro.NewPublishSubject[int]()
+			o := mkLimiter()(subject)
+			e.Subscribe(o, p.rec.Observer(), nil)
+			twin := &pipe{name: "twin", spec: p.spec, items: p.items, src: p.src, rec: e.NewRec("twin")}
+			e.Subscribe(o, twin.rec.Observer(), nil)
+			e.Settle()
+			e.Go("feeder", func() { in.Subscribe(subject) })
+			pipes = append(pipes, twin)
+			continue
+		}
+		e.Subscribe(mkLimiter()(in), p.rec.Observer(), nil)
 	}
-	e.SettleFor(end + 3*win + 2*Unit)
+	e.SettleFor(end + 3*win + 2*Unit + 3*dur(slow))
 	if e.K.Capped() {
 		return
 	}
@@ -366,9 +423,13 @@ func runC20(e *Env) {
 			}
 		}
 
-		// (a) quota bound, sound whatever the alignment of the windows
+		// (a) quota bound, sound whatever the alignment of the windows (delivery instants: not meaningful when
+		// the consumer itself holds deliveries back)
 		limited := false
 		for _, k := range keyOrder {
+			if reduced {
+				break
+			}
 			out := c20Passed(rec, k)
 			if len(out) < len(inByKey[k]) {
 				limited = true
@@ -406,13 +467,13 @@ func runC20(e *Env) {
 			}
 		case term.K == "C":
 			if got == 0 {
-				e.Violate("C20", "completion-lost", fmt.Sprintf("the source completed at unit %s but the observer saw no completion by unit %s: %s", c20Units(end), c20Units(e.K.Now()), describe(p)))
+				e.Violate("C20", "completion-lost"+slowTag, fmt.Sprintf("the source completed at unit %s but the observer saw no completion by unit %s: %s", c20Units(end), c20Units(e.K.Now()), describe(p)))
 			} else if got != 'C' {
 				e.Violate("C20", "wrong-terminal", fmt.Sprintf("the source completed but the observer got an error: %s", describe(p)))
 			}
 		case term.K == "E":
 			if got == 0 {
-				e.Violate("C20", "error-lost", fmt.Sprintf("the source failed at unit %s but the observer saw no error by unit %s: %s", c20Units(end), c20Units(e.K.Now()), describe(p)))
+				e.Violate("C20", "error-lost"+slowTag, fmt.Sprintf("the source failed at unit %s but the observer saw no error by unit %s: %s", c20Units(end), c20Units(e.K.Now()), describe(p)))
 			} else if got != 'E' {
 				e.Violate("C20", "wrong-terminal", fmt.Sprintf("the source failed but the observer got a completion: %s", describe(p)))
 			} else {
@@ -429,7 +490,8 @@ func runC20(e *Env) {
 	}
 
 	// (d) independence: the solo key's output (values and instants) is the same with and without the other keys
-	if soloKey >= 0 {
+	// (not with a slow consumer or per-item contexts on the main pipeline only: the instants differ by design)
+	if soloKey >= 0 && !reduced {
 		all, solo := pipes[0], pipes[1]
 		if native {
 			// The windows of a key are cut by its own ticker, started when its first item arrives. An item
